@@ -1,6 +1,47 @@
-struct S { int a; char b[3]; double d; unsigned bf : 3; }; union U { int i; float f; }; enum E { E0, E1 = 5 };
-int gi; unsigned gu; long gl; double gd; float gf; char gc; _Bool gb; int *gp; char *gs; void *gv; struct S gS; union U gU; enum E ge; int ga[4]; int gf0(void); int gf2(int, double); int gfv(int, ...); void gvoid(void); int (*gfp)(void);
-
-char f0() {  }
-int * f1(int a, double b) { ((++gS.d) & ((float)gc)); }
-long f2(int a) {  }
+int printf(const char *, ...);
+void *memset(void *, int, unsigned long);
+int memcmp(const void *, const void *, unsigned long);
+#define P(x) printf("%s = %lld\n", #x, (long long)(x))
+#define PD(x) printf("%s = %a\n", #x, (double)(x))
+struct S1 { char c; }; struct S2 { short s; }; struct S3 { char c[3]; }; struct S5 { char c[5]; }; struct S6 { short s[3]; }; struct S7 { char c[7]; };
+struct S9 { char c[9]; }; struct S12 { int i[3]; }; struct S16 { long a; int b; }; struct S17 { long a; char b[9]; }; struct S24 { double d[3]; }; struct S33 { char c[33]; };
+struct Mix { char c; double d; short s; float f; long l; }; struct Nest { struct S3 a; struct Mix m; struct S5 b[2]; union { int i; float f; char c[6]; } u; };
+struct FD { float f; double d; }; struct FF { float a, b; }; struct DD { double a, b; }; struct ID { int i; double d; }; struct LL { long a, b; }; struct L3 { long a, b, c; };
+static void dump(const void *p, int n) { const unsigned char *c = p; int i; for (i = 0; i < n; ++i) printf("%02x", c[i]); printf("\n"); }
+#define COPYTEST(T) { struct T a, b, c; int i; memset(&a, 0, sizeof a); memset(&b, 0xee, sizeof b); for (i = 0; i < (int)sizeof a; ++i) ((char *)&a)[i] = i + 1; b = a; c = b; P(memcmp(&a, &c, sizeof a)); dump(&c, sizeof c); }
+struct S3 r3(int x) { struct S3 s = { { x, x + 1, x + 2 } }; return s; }
+struct S9 r9(int x) { struct S9 s; int i; for (i = 0; i < 9; ++i) s.c[i] = x + i; return s; }
+struct S33 r33(int x) { struct S33 s; int i; for (i = 0; i < 33; ++i) s.c[i] = x + i; return s; }
+struct FD rfd(float f) { struct FD s = { f, f * 2 }; return s; }
+struct FF rff(float f) { struct FF s = { f, -f }; return s; }
+struct DD rdd(double d) { struct DD s = { d, d / 2 }; return s; }
+struct ID rid(int i) { struct ID s = { i, i * 0.5 }; return s; }
+struct L3 rl3(long a) { struct L3 s = { a, a * 2, a * 3 }; return s; }
+struct Mix rmix(int k) { struct Mix m = { k, k + 0.5, k * 2, k * 0.25f, k * 1000000007L }; return m; }
+long t3(struct S3 s) { return s.c[0] + s.c[1] * 10 + s.c[2] * 100; }
+long t9(int pad, struct S9 s) { int i; long r = pad; for (i = 0; i < 9; ++i) r = r * 3 + s.c[i]; return r; }
+long t33(struct S33 a, int mid, struct S33 b) { int i; long r = mid; for (i = 0; i < 33; ++i) r = r * 3 + a.c[i] - b.c[32 - i]; return r; }
+double tfd(struct FD a, struct FF b, struct DD c, struct ID d, struct LL e, struct L3 f) { return a.f + a.d * 2 + b.a * 3 + b.b * 5 + c.a * 7 + c.b * 11 + d.i * 13 + d.d * 17 + e.a * 19 + e.b * 23 + f.a + f.b + f.c; }
+double many(int a, double b, struct FF c, long d, float e, struct S16 f, int g, int h, int i, int j, struct LL k, double l, double m, double n, double o, double p, double q, double r, struct DD s, int t) {
+	return a + b * 2 + c.a * 3 + c.b * 4 + d * 5 + e * 6 + f.a * 7 + f.b * 8 + g * 9 + h * 10 + i * 11 + j * 12 + k.a * 13 + k.b * 14 + l * 15 + m * 16 + n * 17 + o * 18 + p * 19 + q * 20 + r * 21 + s.a * 22 + s.b * 23 + t * 24; }
+union UU { int i; double d; char c[11]; }; union UU ru(int i) { union UU u; memset(&u, 0, sizeof u); u.i = i; return u; } int tu(union UU u) { return u.i + u.c[0]; }
+/* aggregates with every alignment: copies move all bytes whatever granule the alignment suggests */
+struct A2 { short a; char b[5]; short c; }; struct A16 { _Alignas(16) long a; long b; int c[6]; }; struct A32 { char x; _Alignas(32) char y[40]; }; struct A64 { _Alignas(64) int v[3]; double d; };
+struct A16h { char c; struct A16 in; short t; }; union UA16 { _Alignas(16) char c[20]; long l; };
+#define INITCOPY(T) { struct T a, d[2]; int i; memset(&a, 0, sizeof a); memset(d, 0xee, sizeof d); for (i = 0; i < (int)sizeof a; ++i) ((char *)&a)[i] = 0x80 + i; { struct T b = a; struct T e[2] = { a, b }; struct { char p; struct T m; } w = { 1, a }; d[1] = e[1]; \
+	P(memcmp(&a, &b, sizeof a)); P(memcmp(&a, &d[1], sizeof a)); P(memcmp(&a, &w.m, sizeof a)); dump(&e[0], sizeof a); } }
+int main(void) {
+	COPYTEST(A2) COPYTEST(A16) COPYTEST(A32) COPYTEST(A64) COPYTEST(A16h) INITCOPY(A2) INITCOPY(A16) INITCOPY(A32) INITCOPY(A64) INITCOPY(S3) INITCOPY(S17) INITCOPY(Mix)
+	{ union UA16 a, b; memset(&a, 7, sizeof a); memset(&b, 9, sizeof b); b = a; P(memcmp(&a, &b, sizeof a)); P(sizeof a); }
+	COPYTEST(S1) COPYTEST(S2) COPYTEST(S3) COPYTEST(S5) COPYTEST(S6) COPYTEST(S7) COPYTEST(S9) COPYTEST(S12) COPYTEST(S16) COPYTEST(S17) COPYTEST(S24) COPYTEST(S33) COPYTEST(Mix) COPYTEST(Nest)
+	P(t3(r3(1))); P(t9(5, r9(2))); P(t33(r33(1), 7, r33(3))); { struct S33 x = r33(9); dump(&x, sizeof x); }
+	{ struct FD a = rfd(1.5f); struct FF b = rff(2.5f); struct DD c = rdd(3.5); struct ID d = rid(9); struct LL e = { 11, 12 }; struct L3 f = rl3(100); PD(tfd(a, b, c, d, e, f)); PD(a.d); PD(b.b); PD(c.b); PD(d.d); P(f.c); }
+	{ struct Mix m = rmix(7); P(m.c); PD(m.d); P(m.s); PD(m.f); P(m.l); struct Mix n; n = m; n.s = -1; P(m.s); P(n.s); }
+	{ struct FF c = { 1, 2 }; struct S16 f = { 3, 4 }; struct LL k = { 5, 6 }; struct DD s = { 7, 8 }; PD(many(1, 2, c, 3, 4, f, 5, 6, 7, 8, k, 9, 10, 11, 12, 13, 14, 15, s, 16)); }
+	{ struct Nest n = { { { 1, 2, 3 } }, { 4, 5.5, 6, 7.5f, 8 }, { { { 9 } }, { { 10, 11 } } }, { .f = 1.0f } }; struct Nest m = n; P(m.a.c[2]); PD(m.m.d); P(m.b[1].c[1]); P(m.u.i); m.b[0] = n.b[1]; P(m.b[0].c[0]); P(sizeof n); dump(&m.b, sizeof m.b); }
+	{ struct S5 arr[3] = { { "ab" }, { "cde" }, { { 'f' } } }; struct S5 *p = arr; p[2] = p[0]; P(arr[2].c[1]); *p = *(p + 1); P(arr[0].c[2]); P((p + 1)->c[0]); P((*p).c[1]); }
+	P(tu(ru(300))); { union UU u = ru(5); union UU v; v = u; P(v.i); }
+	{ struct S3 s = r3(10); P(r3(20).c[1]); P((s = r3(30)).c[2]); P(s.c[0]); struct S3 t = s.c[0] > 5 ? r3(1) : r3(2); P(t.c[0]); P((0 ? s : t).c[1]); P((s, t).c[2]); }
+	{ struct S12 a = { { 1, 2, 3 } }, *p = &a; struct S12 b = *p; P(b.i[2]); b.i[1] = 9; *p = b; P(a.i[1]); int arr2[2][3] = { { 1, 2, 3 }, { 4, 5, 6 } }; int (*q)[3] = arr2; P(q[1][2]); P(**(q + 1)); P(sizeof arr2 / sizeof *arr2); P(*(*(q + 1) + 1)); }
+	return 0;
+}
